@@ -99,6 +99,26 @@ pub fn default_value(m: &ir::Module, t: &Ty) -> R<Value> {
     })
 }
 
+/// `(T)s` with a scalar `s` and an aggregate `T` (struct / array): every scalar slot receives the converted value
+pub fn splat_value(m: &ir::Module, t: &Ty, s: Sc) -> R<Value> {
+    Ok(match t {
+        Ty::Void => return Err(Stop::Stuck("cast to void".into())),
+        Ty::S(st) => Value::S(conv(s, *st)?),
+        Ty::V(st, n) => Value::V(vec![conv(s, *st)?; *n]),
+        Ty::Struct(i) => {
+            let mut f = Vec::new();
+            for mem in &m.struct_registry[*i].members {
+                f.push(splat_value(m, &ty_of(m, mem.type_id)?, s)?);
+            }
+            Value::Struct(f)
+        }
+        Ty::Array(e, n) => {
+            let one = splat_value(m, e, s)?;
+            Value::Array(vec![one; *n])
+        }
+    })
+}
+
 pub fn constant(c: &ir::Constant) -> R<Value> {
     Ok(Value::S(match c {
         ir::Constant::Bool(b) => Sc::B(*b),
@@ -508,6 +528,9 @@ impl<'m> Interp<'m> {
             E::Cast(t, inner) => {
                 let v = self.eval(inner)?;
                 let ty = ty_of(self.m, *t)?;
+                if let (Ty::Struct(_) | Ty::Array(..), Value::S(sc)) = (&ty, &v) {
+                    return splat_value(self.m, &ty, *sc);
+                }
                 // the typer does not validate explicit casts: one that has no meaning in HLSL is outside the subset
                 convert_value(&v, &ty).map_err(|e| match e {
                     Stop::Stuck(w) => Stop::Unsupported(format!("explicit cast without HLSL meaning (accepted by the typer): {}", w.split(" converted").next().unwrap_or("").trim_start_matches(|c: char| !c.is_alphabetic()).split(' ').next().unwrap_or(""))),
